@@ -25,5 +25,6 @@ open SamVerif.Useful
 #print axioms checker_iflet_decided
 #print axioms replayed_match_exact
 #print axioms replayed_iflet_exact
+#print axioms object_pattern_columns
 #print axioms inhabited_certificate
 #print axioms useful_iff_counterexample
